@@ -40,6 +40,19 @@ NearVertexPts(c) ==
   {<<PX(c, u), PY(c, u)>> : u \in {Sub(ks[i], Mul(Sub(ks[i], ks[i - 1]), Q(1, 1024))) : i \in 2..(Len(ks) - 1)}
                                    \cup {Add(ks[i], Mul(Sub(ks[i + 1], ks[i]), Q(1, 2048))) : i \in 2..(Len(ks) - 1)}}
 
+(* planar curves of degree 2 and 3 (polynomial and rational), integer control points *)
+PC(U, xs, ys, ws) == [U |-> U, X |-> [i \in 1..Len(xs) |-> R(xs[i])], Y |-> [i \in 1..Len(ys) |-> R(ys[i])],
+                      W |-> [i \in 1..Len(ws) |-> R(ws[i])]]
+B2 == BezierKV(2)
+B3 == BezierKV(3)
+S2 == <<Zero, Zero, Zero, Half, One, One, One>>
+Arcs == {PC(B2, <<0, 2, 4>>, <<0, 3, 0>>, <<>>), PC(B2, <<1, 1, 0>>, <<0, 1, 1>>, <<2, 1, 2>>),
+         PC(B3, <<0, 1, 3, 4>>, <<0, 2, -2, 0>>, <<>>), PC(S2, <<0, 1, 3, 4>>, <<0, 2, 2, 0>>, <<>>),
+         PC(S2, <<0, 2, 2, 0>>, <<0, 0, 2, 2>>, <<1, 2, 2, 1>>), PC(B2, <<-3, -1, -3>>, <<-3, -2, -1>>, <<>>)}
+FarArcs == {PC(B2, <<6, 8, 10>>, <<5, 9, 5>>, <<>>), PC(B3, <<-9, -8, -7, -6>>, <<1, 5, -1, 2>>, <<>>),
+            PC(B2, <<0, 2, 4>>, <<-9, -5, -9>>, <<1, 3, 1>>)}
+OnGrid(c) == ParamGrid(c.U, 2)
+
 MCArgs(name, h, dep) ==
   IF name \notin Acts THEN {} ELSE
   IF name \in {"KvGen", "MemoRequest"} /\ h["s"].i # 0 THEN {} ELSE
@@ -50,6 +63,10 @@ MCArgs(name, h, dep) ==
          \cup {[obj |-> "a", kind |-> "weight", p |-> p, n |-> 0, w |-> w] : p \in 0..MaxP, w \in WeightSeqs}
     [] name = "MemoRequest" ->
          {[fn |-> f, n |-> n] : f \in Fns, n \in 1..MemoN} \ {[fn |-> f, n |-> 1] : f \in {"nodes_closed", "w_closed"}}
+    [] name = "GeoProjectOn" ->
+         UNION {{[curve |-> c, u0 |-> u] : u \in OnGrid(c)} : c \in {x \in Arcs : Mine(h, x)}}
+    [] name = "GeoIntersectCurved" ->
+         {[A |-> A, B |-> B] : A \in {x \in Arcs \cup FarArcs : Mine(h, x)}, B \in Arcs \cup FarArcs}
     [] name = "GeoLength" -> {[curve |-> c] : c \in {x \in Lines : Mine(h, x)}}
     [] name = "GeoProject" ->
          UNION {{[curve |-> c, px |-> q[1], py |-> q[2], elev |-> e] : q \in QueryPts,
